@@ -83,6 +83,8 @@ class ZNgram:
             p["min_occurrences"] = 2
             if r.random() < 0.6:
                 p["mask_string"] = "[M]"
+                if r.random() < 0.4:
+                    p["nullify_mask"] = True  # a supported constructor option: fit_transform / transform must still agree
         if max(len(d) for d in tr) < p["ngram_size"] + 1:
             tr.append(["w%d" % r.randrange(vocab) for _ in range(p["ngram_size"] + 3)])  # a corpus without any n-gram is not valid input
         return {"zoo": "Ngram", "params": p, "train": tr, "test": _docs(r, vocab + 1, unseen=0.25) + [[]]}
